@@ -355,6 +355,40 @@ fn public_part(args: &Args, report: &mut Report) {
         }
         drop(listeners);
     }
+    // happy eyeballs switched off (no overall timeout configured): every candidate still carries the URI's port
+    for t in 0..(if args.tier_thorough { 30 } else { 6 }) {
+        let ip = IpAddr::V4(Ipv4Addr::new(127, 0, 0, 2 + (t % 3) as u8));
+        let Some((port, listeners)) = bind_all(&[ip]) else {
+            p.count("public_bind_failures", 1);
+            continue;
+        };
+        let resolver_port = [0u16, 1, 977][t % 3];
+        let input = vec![SocketAddr::new(ip, resolver_port)];
+        let mut config = TcpTransportConfig::default();
+        config.happy_eyeballs_timeout = None;
+        config.happy_eyeballs_concurrency = [None, Some(1)][t % 2];
+        config.connect_timeout = Some(Duration::from_secs(5));
+        let transport: TcpTransport<ScriptResolver> = TcpTransport::builder().with_config(config).with_resolver(ScriptResolver { addrs: input.clone() }).build();
+        let uri: http::Uri = format!("http://verif.test:{port}/").parse().unwrap();
+        let res = rt.block_on(async {
+            use tower::ServiceExt;
+            let parts = http::Request::get(uri).body(()).unwrap().into_parts().0;
+            tokio::time::timeout(Duration::from_secs(30), transport.oneshot(parts)).await
+        });
+        p.eval(Some(hash_of(&("pub-no-he", &input, t % 2))));
+        p.count("public_trials_happy_eyeballs_off", 1);
+        let case = json!({"engine":"addrsort","public":true,"happy_eyeballs_timeout": null, "resolver": fmt_list(&input), "uri_port": port});
+        match res {
+            Err(_) => p.inconclusive.push(format!("public trial watchdog fired: {case}")),
+            Ok(Err(e)) => p.violation("public:port-of-the-uri-not-applied:happy-eyeballs-off", format!("resolver answered {:?} , the URI says port {port}, a listener waits there: {e} ; case {case}", fmt_list(&input)), case),
+            Ok(Ok(stream)) => {
+                if stream.peer_addr().ok().map(|a| a.port()) != Some(port) {
+                    p.violation("public:wrong-port:happy-eyeballs-off", format!("connected to {:?}, URI port {port} ; case {case}", stream.peer_addr().ok()), case);
+                }
+            }
+        }
+        drop(listeners);
+    }
 }
 
 pub fn run(args: &Args) -> Report {
